@@ -22,7 +22,7 @@ from .. import dtypes_b as B
 from ..common import Result, Violation, pmap, silence_labtech
 from ..paramtree import build, canon, describe, find_tasks, trees, tree_size
 from ..spec import FIXED_META
-from ..storages import LocalFsspecStorage, LocalStorage, MemStorage
+from ..storages import LocalFsspecStorage, LocalStorage, MemFsspecStorage, MemStorage
 from ..universe import WORLD
 from .c07 import FULL, SMALL, TINY
 
@@ -52,6 +52,8 @@ def run_group(args):
     tmp = None
     if storage_kind == 'mem':
         storage = MemStorage()
+    elif storage_kind == 'fsmem':
+        storage = MemFsspecStorage()
     else:
         tmp = tempfile.mkdtemp(prefix='c09_')
         storage = LocalStorage(tmp) if storage_kind == 'local' else LocalFsspecStorage(tmp)
@@ -163,6 +165,8 @@ def run_group(args):
     finally:
         if isinstance(storage, MemStorage):
             storage.release()
+        if isinstance(storage, MemFsspecStorage):
+            storage.destroy()
         if tmp:
             shutil.rmtree(tmp, ignore_errors=True)
 
@@ -210,6 +214,7 @@ def run(tier: str, seed: int) -> Result:
     work = [('mem', g) for g in make_groups(uniq, cyc)]
     work += [('local', g) for g in make_groups(fs_ts, cyc)]
     work += [('fsspec', g) for g in make_groups(fs_ts, cyc)]
+    work += [('fsmem', g) for g in make_groups(fs_ts, cyc)]
     viols = []
     n = 0
     for cnt, res in pmap(run_group, work):
@@ -221,7 +226,7 @@ def run(tier: str, seed: int) -> Result:
         'distinct_nontrivial': len(uniq) * 2 + len(fs_ts) * 4,
         'rule': ('every parameter tree to depth 2 (scalars, 4 enum classes, lists, dicts, nested tasks of two modules) as parameter of Foo and of a '
                  'second outer type cycling over prefix-named / same-named / JSON-format / protocol-2 / post_init / uncached types; groups of ~2x24 tasks '
-                 'share one storage (in-memory; LocalStorage and fsspec-local slices) together with a foreign-format entry; all single-type and 4 '
+                 'share one storage (in-memory; LocalStorage, fsspec-local and fsspec-in-memory slices) together with a foreign-format entry; all single-type and 4 '
                  'multi-type cached_tasks queries + reload of the returned tasks; distinct_nontrivial = distinct (type, tree) tasks cached'),
         'samples': [f'{tn}(p={describe(t)})' for g in (work[0][1][:2], work[-1][1][:2]) for tn, t in g],
         'storage_groups': len(work),
